@@ -111,11 +111,11 @@ CLAIMED["C08"] = dict(engine="library", design="4 C08",
 
 CLAIMED["C10"] = dict(engine="enclosing", design="4 C10",
   text="Coq theorems over the enclosing model (_strip_enclosing characterised against an independent outer-pair spec over prefixes/active-brace depth; reuse restores; integer rule and default enclosing without error; metadata and frame for entries/strings/libraries; numeric-field constants re-proved at every build), tied to /repo by bounded-exhaustive differential correspondence (all token strings up to 4/5 tokens, samples to 7, ints, every option combination) through the function level and the real middlewares, and by a Python oracle that also checks remove->add->write_string->parse_string.",
-  note="the re-parse clause composes with the splitter and is checked by the Python oracle through the real write_string/parse_string (and by C05's composed model); K2/K4 open known findings; str.strip/isdigit enter as per-character flags; non str/int values reaching _enclose are outside the model (skipped)",
+  note="the re-parse clause is also proved composed with the splitter model (C10_reparse_brace / C10_reparse_quote over the grammar's braced / quoted contents, K2 and K4 refuted by witnesses) and checked by the Python oracle through the real write_string/parse_string; K2/K4 open known findings; str.strip/isdigit enter as per-character flags; non str/int values reaching _enclose are outside the model (skipped)",
   technique="Coq proof + differential correspondence via extracted model + property oracle through the public entry points")
 CLAIMED["C11"] = dict(engine="interpolate", design="4 C11",
   text="Coq theorems over ResolveStringReferences on a library given as the block list it is built from (first definition per key proved from the Library model; resolved/untouched/metadata via a spec relation; non-entry blocks untouched; default stack = resolve then remove acts block-wise, field holds the referenced string's content; order-matters witness), tied to /repo by differential correspondence on split libraries of generated documents (resolve alone, real default parse_string, swapped order) and a Python oracle on parse_string(text) against the document spec.",
-  note="'after default parsing of a grammar-derived document' composes with the splitter model (C02/C09) and is covered here by the oracle; duplicate-wrapped entries are not live and not resolved (checked by correspondence)",
+  note="'after default parsing of a grammar-derived document' is proved composed with the splitter model (C11_doc_fields / C11_doc_untouched / C11_doc_strings over the dialect grammar); K8 (an @string name containing '#') open known finding; duplicate-wrapped entries are not live and not resolved (checked by correspondence)",
   technique="Coq proof + differential correspondence via extracted model + document-spec oracle")
 
 CLAIMED["C02"] = dict(engine="split", design="4 C02",
@@ -142,8 +142,9 @@ CLAIMED["C07"] = dict(engine="heap", design="4 C07",
        "copy AND in-place mode, comparing the exact sharing pattern.",
   note="ASSUMED: copy.deepcopy meets dc_contract (explicit hypothesis DC of every theorem, no axiom); the executable copy is proved to meet "
        "it whenever it completes (C07_deepcopy_exec_partial; fuel sufficiency not proved) and is compared with CPython's deepcopy on every "
-       "run. PROVED for the framework and the probe bodies (C07_probe_footprints); the bodies of the SHIPPED middlewares are NOT modelled "
-       "at heap level in Coq - their footprint is TESTED by the Python oracle only. 'writing twice gives identical text' is tested; the theorem gives "
+       "run. PROVED for the framework, the probe bodies and the bodies of ALL shipped block middlewares, transcribed at heap level and proved "
+       "footprint_ok for every string table (C07_shipped_footprints, C07_shipped_copy_mode, C07_shipped_stack, C07_write_string_default); the real "
+       "shipped middlewares are compared with these body models in copy and in-place mode. 'writing twice gives identical text' is tested; the theorem gives "
        "'library and format graph unchanged'. String-level decisions (bare references, sort permutation) enter the model as harness-computed "
        "arguments. Exceptions are atoms.",
   technique="Coq proof (frame reasoning over a heap; induction over blocks/stacks) + property oracle + differential correspondence via extracted model")
